@@ -175,8 +175,10 @@ func calculateExecutionType(
 		return unifiedT
 
 	case base.OPTIONAL_UNIFY:
-		m.evaluatedObjectT.AppendVariant(*base.MakeNil())
-		unifiedT := base.MakeUnifiedT(m.evaluatedObjectT.GetVariants())
+		// nil is added to the result, not to the receiver's own element types
+		variants := append([]base.T{}, m.evaluatedObjectT.GetVariants()...)
+		variants = append(variants, *base.MakeNil())
+		unifiedT := base.MakeUnifiedT(variants)
 
 		return unifiedT
 
